@@ -36,11 +36,20 @@ StripSemi(p) ==   \* what strip_semicolon may remove: trailing `;` and blanks
                   ELSE IF IsWsChar(p[i]) \/ p[i] = 59 THEN Cut(i - 1) ELSE i
     IN SubSeq(p, 1, Cut(Len(p)))
 
+\* finding C04-empty-hash-comment: the MySQL comment opener is `# ` (hash + blank); when the comment is empty
+\* and ends the statement, strip() removes the blank and the lone `#` of the piece is an operator
+EndsInEmptyHashComment(i) ==
+    LET p == T.pieces[i]  s == T.stmts[i]  n == Len(p) IN
+    /\ n >= 1 /\ p[n] = 35
+    /\ Len(s) > LastNonWs(s, Len(s)) /\ s[LastNonWs(s, Len(s))] = 35 /\ s[LastNonWs(s, Len(s)) + 1] = 32
+
 C04Verdict ==
     CASE Len(T.pieces) # Len(T.stmts)                                    -> "split-count-differs-from-parse"
       [] \E i \in 1..Len(T.pieces) : T.pieces[i] = <<>>                  -> "empty-piece"
       [] \E i \in 1..Len(T.pieces) : T.pieces[i] # Strip(T.stmts[i])     -> "piece-is-stripped-statement"
       [] ~IsWsSeparated(T.text, 1, T.pieces, 1)                          -> "pieces-partition-input"
+      [] \E i \in 1..Len(T.pieces) : T.resplit[i] # <<T.pieces[i]>> /\ EndsInEmptyHashComment(i)
+                                                                         -> "resplit:piece-ends-in-empty-hash-comment"
       [] \E i \in 1..Len(T.pieces) : T.resplit[i] # <<T.pieces[i]>>      -> "resplit-idempotent"
       [] Len(T.semi) > Len(T.pieces)                                     -> "strip-semicolon-count"
       [] OTHER                                                           -> "accepted"
